@@ -1375,7 +1375,7 @@ def replay(run, data):
     key = data.get("key", "")
     rng = random.Random(0)
     from harness import c20_options
-    if key.startswith(("qft:dft:distributed", "qft:distributed", "corr:qft:distributed", "repr:", "options:")) and \
+    if key.startswith(("qft:dft:distributed", "qft:distributed", "corr:qft:distributed", "qft:kwargs", "repr:", "options:")) and \
             c20_options.replay(run, key, data.get("what", ""), rp):
         pass
     elif key.startswith("purity:"):
